@@ -336,3 +336,20 @@ Proof.
   eexists. erewrite run_bindr_ok by (rewrite run_do_op, step_discard2; reflexivity).
   reflexivity.
 Qed.
+
+(** * single operations as runs *)
+Lemma run_discard B k (pre rest : bytes) al : Z.of_nat (length pre) = k ->
+  run B (do_op (ODiscard k)) (pre ++ rest) al = (Ok [], rest, al).
+Proof. intros H. rewrite run_do_op, (step_discard B k pre rest H). reflexivity. Qed.
+
+Lemma run_read_byte B b rest al : run B (do_op OReadByte) (b :: rest) al = (Ok [b], rest, al).
+Proof. reflexivity. Qed.
+
+Lemma run_copy_n B (c rest : bytes) al :
+  run B (do_op (OCopyN (blen c))) (c ++ rest) al = (Ok c, rest, al).
+Proof.
+  rewrite run_do_op. cbn [flat_step].
+  destruct (N.leb_spec (blen c) (blen (c ++ rest))) as [_|Hx].
+  - unfold blen. rewrite Nat2N.id, firstn_app_exact, skipn_app_exact. reflexivity.
+  - unfold blen in Hx. rewrite app_length in Hx. lia.
+Qed.
